@@ -41,11 +41,11 @@ def build(i):
 def quick_matrix():
     return [
         inst("small", 2, "TC4", K=1, L=4),
-        inst("small", 2, "TC4", K=2, L=3, opts=["--few-ranges", "--no-ctors"]),
+        inst("small", 2, "TC4", K=2, L=2, opts=["--few-ranges"]),
         inst("small", 3, "TR", st="uint8_t", alloc="ledgerrealloc", L=4, opts=["--few-ranges"]),
         inst("small", 2, "NTR", alloc="ledgerstd", L=4),
         inst("small", 1, "TC12", st="uint16_t", alloc="std", L=3),
-        inst("small", 5, "TC1", st="int16_t", alloc="ledgerbasic", L=6, opts=["--few-ranges", "--no-alias"]),
+        inst("small", 4, "TC1", st="int16_t", alloc="ledgerbasic", L=5, opts=["--few-ranges", "--no-alias", "--no-ctors"]),
         inst("small", 3, "PTN", alloc="amc", L=4, opts=["--few-ranges"]),
         inst("small", 2, "PTT", st="uint64_t", alloc="ledgerbasic", L=3),
         inst("small", 2, "NTR", st="int8_t", alloc="ledgerstd", std="c++20", L=3),
@@ -147,8 +147,21 @@ def norm(msg):
     return re.sub(r"\d+", "#", re.sub(r"0x[0-9a-f]+", "P", msg))
 
 
+SRC_NAMES = ["ptr", "stdvec", "deque", "list", "fwdlist", "input", "move_ptr", "move_list"]
+
+
 def opkind(op):
-    return op.split(":")[0]
+    """operation kind for signatures; range operations carry their iterator kind"""
+    f = op.split(":")
+    k = f[0]
+    try:
+        if k == "INS_RANGE":
+            return k + "/" + SRC_NAMES[int(f[5])]
+        if k in ("ASSIGN_RANGE", "APPEND_RANGE", "CTOR_RANGE"):
+            return k + "/" + SRC_NAMES[int(f[4])]
+    except (ValueError, IndexError):
+        pass
+    return k
 
 
 def explore(ctx, matrix, want_tags, engine="E1", any_fail_counts=False):
@@ -240,3 +253,14 @@ ASSUME = [
     "sizes bounded by L, pool size K, one element type/size_type/allocator per instantiation; g++ 12 + libstdc++, ASan/UBSan build",
     "always-equal allocators; element moves are noexcept",
 ]
+
+
+def relevant(pid, i):
+    """Which instantiations can say anything about a property."""
+    if pid == "C02":
+        return i["elem"] in TRACKED
+    if pid == "C05":
+        return i["flavour"] != "vector"
+    if pid == "C06":
+        return i["alloc"].startswith("ledger") and not i["flavour"].startswith("fixed")
+    return True
